@@ -84,7 +84,12 @@ type SigSpec struct {
 	Header   [][2]string // application headers (name, value); repeated names = several values
 	Body     []byte
 	Mode     string
-	Trailer  string // x-amz-checksum-… name for trailer modes ("" = none declared)
+	Trailer  string // x-amz-checksum-… name for trailer modes ("" = none declared), lower case
+	// Spellings of things HTTP/S3 treat case-insensitively ("" = the lower-case default):
+	TrailerDecl string // the x-amz-trailer header value as sent (e.g. "X-Amz-Checksum-CRC32", " x-amz-checksum-crc32 ")
+	TrailerLine string // the name of the checksum line in the trailer section of the body
+	ChunkedWord string // the aws-chunked token in Content-Encoding (e.g. "AWS-Chunked")
+	NameCase    int    // header names on the wire: 0 as net/http writes them, 1 lower case, 2 upper case
 	Chunks   []int  // chunk sizes for streaming modes (the rest goes into a last chunk)
 	AltFrame bool   // put a blank line between the zero chunk and the trailer section
 	TEChunk  bool   // send the body with Transfer-Encoding: chunked (length unknown to the signer) instead of Content-Length
@@ -267,7 +272,8 @@ func TrailerValue(name string, payload []byte) string {
 type ChunkEnc struct {
 	Signed      bool // chunk signatures (and a trailer signature when Trailer is set)
 	HasTrailer  bool // mode …-TRAILER
-	TrailerName string
+	TrailerName string // lower-case algorithm header name (selects the checksum)
+	LineName    string // how the name is spelled in the trailer line ("" = TrailerName)
 	Sizes       []int
 	AltFrame    bool
 	Alg         string // "AWS4-HMAC-SHA256"
@@ -339,7 +345,11 @@ func (e *ChunkEnc) Encode(payload []byte) []byte {
 			b.WriteString("\r\n")
 		}
 		if e.TrailerName != "" {
-			line := e.TrailerName + ":" + TrailerValue(e.TrailerName, payload)
+			name := e.LineName
+			if name == "" {
+				name = e.TrailerName
+			}
+			line := name + ":" + TrailerValue(e.TrailerName, payload)
 			b.WriteString(line + "\r\n")
 			if e.Signed {
 				b.WriteString("x-amz-trailer-signature:" + e.TrailerSignature(prev, line) + "\r\n")
@@ -409,17 +419,25 @@ func (s *SigSpec) Build() (*Signed, error) {
 	var enc *ChunkEnc
 	if IsStreaming(s.Mode) {
 		enc = &ChunkEnc{Signed: s.Mode == ModeStream || s.Mode == ModeStreamTrailer,
-			HasTrailer: s.Mode == ModeStreamTrailer || s.Mode == ModeStreamUnsignedTrailer, TrailerName: s.Trailer,
+			HasTrailer: s.Mode == ModeStreamTrailer || s.Mode == ModeStreamUnsignedTrailer, TrailerName: s.Trailer, LineName: s.TrailerLine,
 			Sizes: s.Chunks, AltFrame: s.AltFrame, Alg: "AWS4-HMAC-SHA256", Timestamp: ts, Scope: out.Scope, SignKey: out.SignKey}
+		word := s.ChunkedWord
+		if word == "" {
+			word = "aws-chunked"
+		}
 		ce := req.Header.Get("Content-Encoding")
 		if ce == "" {
-			req.Header.Set("Content-Encoding", "aws-chunked")
+			req.Header.Set("Content-Encoding", word)
 		} else {
-			req.Header.Set("Content-Encoding", "aws-chunked,"+ce)
+			req.Header.Set("Content-Encoding", word+","+ce)
 		}
 		req.Header.Set("X-Amz-Decoded-Content-Length", strconv.Itoa(len(s.Body)))
 		if enc.HasTrailer && s.Trailer != "" {
-			req.Header.Set("X-Amz-Trailer", s.Trailer)
+			decl := s.TrailerDecl
+			if decl == "" {
+				decl = s.Trailer
+			}
+			req.Header.Set("X-Amz-Trailer", decl)
 		}
 		// the encoded length does not depend on the signature values
 		enc.SeedSig = strings.Repeat("0", 64)
@@ -495,6 +513,17 @@ func (s *SigSpec) Build() (*Signed, error) {
 		return nil, err
 	}
 	out.Wire = parseWire(buf.Bytes())
+	if s.NameCase != 0 {
+		// header field names are case-insensitive: respell them on the wire (the signature covers
+		// their lower-case form)
+		for i := range out.Wire.Headers {
+			if s.NameCase == 1 {
+				out.Wire.Headers[i][0] = strings.ToLower(out.Wire.Headers[i][0])
+			} else {
+				out.Wire.Headers[i][0] = strings.ToUpper(out.Wire.Headers[i][0])
+			}
+		}
+	}
 	if teChunk {
 		out.Wire.Decoded = append([]byte{}, body...)
 	}
@@ -738,4 +767,42 @@ func FlipHex(s string, i int) string {
 		b[i] = '0'
 	}
 	return string(b)
+}
+
+// CaseVariant respells a case-insensitive token: upper case, MIME-canonical case, alternating
+// case, or with surrounding blanks.
+func CaseVariant(r *Rng, s string) string {
+	switch r.Intn(5) {
+	case 0:
+		return strings.ToUpper(s)
+	case 1:
+		return http.CanonicalHeaderKey(s)
+	case 2:
+		b := []byte(s)
+		for i := range b {
+			if i%2 == 0 && b[i] >= 'a' && b[i] <= 'z' {
+				b[i] -= 32
+			}
+		}
+		return string(b)
+	case 3:
+		return "  " + http.CanonicalHeaderKey(s) + " "
+	}
+	return s
+}
+
+// Respell draws spellings for everything the spec's request treats case-insensitively.
+func (s *SigSpec) Respell(r *Rng) {
+	if s.Trailer != "" {
+		if r.Chance(1, 2) {
+			s.TrailerDecl = CaseVariant(r, s.Trailer)
+		}
+		if r.Chance(1, 3) {
+			s.TrailerLine = strings.TrimSpace(CaseVariant(r, s.Trailer))
+		}
+	}
+	if IsStreaming(s.Mode) && r.Chance(1, 3) {
+		s.ChunkedWord = strings.TrimSpace(CaseVariant(r, "aws-chunked"))
+	}
+	s.NameCase = r.Intn(3)
 }
